@@ -268,7 +268,12 @@ fn gen(t: &mut Tape, _tier: Tier) -> Scenario {
             sc.note = "size-bounded raw LZMA".into();
         }
         4 | 5 => {
-            let b = gen_lzma2(t, 2500, true);
+            // now and then the big plans and chunk sizes on the boundaries of the size field
+            let b = match t.below(60) {
+                0 => gen_lzma2(t, 300_000, true),
+                1 => gen_lzma2_size_boundary(t),
+                _ => gen_lzma2(t, 2500, true),
+            };
             input = b.bytes;
             payload_len = input.len();
             sc.set_i("ep", if kind == 4 { EP_LZMA2 } else { EP_RAW_LZMA2 });
